@@ -490,3 +490,99 @@ def rule_rounding(ctx, rule):
         if bad:
             ctx.report(rule, fname + "/ratio", "Number::%s on an exact ratio a/b (b > 0) is wrong: %s" % (fname, bad), where_of(f))
     return decided
+
+
+# ------------------------------------------------------------------------------------------------ n-ary + - * /
+
+
+def fold_table(fb, name, n):
+    """the builtin `name` applied to n opaque numbers: the tree of binary Number operations that produces the result"""
+    regs = {r["name"]: r for r in registry.read(fb)}
+    if name not in regs or not regs[name]["target"]:
+        return None
+    f = fb.by_path(regs[name]["target"])
+    nv = dict((nm, i) for i, nm in fb.variants("values::Number"))
+    args = [_num(fb, "N%d" % i) for i in range(n)]
+    k = [0]
+
+    def expr(x):
+        if isinstance(x, Tok) and x.kind == "number":
+            return x.tag if not isinstance(x.tag, tuple) else x.tag[1]
+        if isinstance(x, Enum) and x.variant == nv["Integer"] and x.fields and isinstance(x.fields[0], int):
+            return str(x.fields[0])
+        return None
+
+    def icpt(mc, c, a, tt, g):
+        end = c.rsplit("::", 1)[-1]
+        if end in ("add", "sub", "mul", "div") and "std::ops::" in c and len(a) == 2:
+            l, r = expr(a[0]), expr(a[1])
+            if l is None or r is None:
+                return UNKNOWN
+            k[0] += 1
+            t = Tok("number", ("R%d" % k[0], "(%s %s %s)" % ({"add": "+", "sub": "-", "mul": "*", "div": "/"}[end], l, r)))
+            return ok(t) if end == "div" else t
+        return NOT
+    mc = Machine(fb, intercept=icpt, max_visits=8)
+    res = mc.run(f, [list(args)])
+    nums = find_enum(res, "Number")
+    got = nums[0].fields[0] if nums and nums[0].fields else None
+    if got is None and isinstance(res, Enum) and getattr(res, "name", None) == "Ok":
+        # Value::Number built by the function itself (no name on the abstract value)
+        inner = res.fields[0]
+        got = inner.fields[0] if isinstance(inner, Enum) and inner.fields else None
+    return f, expr(got), res
+
+
+def _fold_expected(name, n):
+    ns = ["N%d" % i for i in range(n)]
+
+    def left(op, items):
+        acc = items[0]
+        for x in items[1:]:
+            acc = "(%s %s %s)" % (op, acc, x)
+        return acc
+    if name in ("+", "*"):
+        ident = "0" if name == "+" else "1"
+        out = {left(name, [ident] + ns)}
+        if ns:
+            out.add(left(name, ns))
+        return out
+    ident = "0" if name == "-" else "1"
+    if n == 1:
+        return {"(%s %s N0)" % (name, ident)}
+    return {left(name, ns)}
+
+
+def rule_folds(ctx, rule):
+    """(+ a b c d) = ((a+b)+c)+d, (- a b c d) = ((a-b)-c)-d ...: with an inexact operand every step rounds, so the association is
+    part of the result; (- a) = 0 - a, (/ a) = 1 / a"""
+    fb = ctx.fb()
+    from .ctx import where_of
+    decided = 0
+    for name in ("+", "-", "*", "/"):
+        bad = None
+        f = None
+        for n in range(0 if name in "+*" else 1, 5):
+            try:
+                t = fold_table(fb, name, n)
+            except (absint.Stuck, absint.Loop) as e:
+                ctx.undecided(rule, "%s/%d-operands" % (name, n), "cannot follow the builtin %s on %d opaque numbers (%s)" % (name, n, e))
+                continue
+            if t is None:
+                ctx.undecided(rule, name, "%s is not registered as a builtin function" % name)
+                break
+            f, got, res = t
+            if got is None:
+                ctx.undecided(rule, "%s/%d-operands" % (name, n), "the result of (%s ...) on %d opaque numbers is not a tree of the binary "
+                              "operations (%r)" % (name, n, res), where_of(f))
+                continue
+            decided += 1
+            want = _fold_expected(name, n)
+            ctx.inst(rule, "%s/%d-operands" % (name, n), {"computes": got})
+            ctx.oblige(got in want)
+            if got not in want and bad is None:
+                bad = "(%s %s) is computed as %s, expected %s: with an inexact operand the roundings of the steps differ" % (
+                    name, " ".join("N%d" % i for i in range(n)), got, " or ".join(sorted(want)))
+        if bad:
+            ctx.report(rule, name + "/fold", bad, where_of(f) if f else None)
+    return decided
